@@ -19,7 +19,11 @@ Vals == <<
    Obj(<<>>, <<>>), Obj(<<"x">>, <<One>>), Obj(<<"x">>, <<S(<<"a">>)>>), Obj(<<"y">>, <<One>>),
    Obj(<<"x","y">>, <<One, N(8)>>), Obj(<<"x","y","z">>, <<One, S(<<"a">>), Null>>),
    Obj(<<"x">>, <<Null>>), Obj(<<"x">>, <<Obj(<<"x">>, <<One>>)>>), Obj(<<"x">>, <<Arr(<<One>>)>>),
-   Obj(<<"x">>, <<N(6)>>)
+   Obj(<<"x">>, <<N(6)>>),
+   \* null as ONE of several members (a declared property that is null next to undeclared keys; a null item next to others)
+   Obj(<<"x", "y">>, <<Null, One>>), Arr(<<Null, One>>),
+   \* empty objects below a key (what a default of a nested property would be installed into; see DefaultAtoms)
+   Obj(<<"x">>, <<Obj(<<>>, <<>>)>>), Obj(<<"x", "y">>, <<One, Obj(<<>>, <<>>)>>)
 >>
 
 Big == [t |-> "num", q |-> 2000000000, big |-> TRUE]
@@ -36,6 +40,8 @@ VX == << S(<<"2","0","2","0","-","0","1","-","0","1">>),
          JDocOK, JDocBad, Obj(<<"x">>, <<JDocBad>>), Arr(<<JDocOK, JDocBad>>),
          \* objects the discriminator mapping of "discref" designates D for
          Obj(<<"x", "y">>, <<S(<<"k">>), One>>), Obj(<<"x", "y">>, <<S(<<"k">>), S(<<"a">>)>>),
+         \* ... below an array item and below a property (the discriminated oneOf under "items" / "properties")
+         Arr(<<One, Obj(<<"x", "y">>, <<S(<<"k">>), S(<<"a">>)>>)>>), Obj(<<"x">>, <<Obj(<<"x", "y">>, <<S(<<"k">>), S(<<"a">>)>>)>>),
          \* objects whose keys are not plain identifiers (see OddKeys below; keys in byte order), at the top and below a container
          OddObj(One), OddObj(S(<<"a">>)), Arr(<<OddObj(One)>>), Obj(<<"x">>, <<OddObj(S(<<"a">>))>>),
          Obj(<<"a/b", "~t">>, <<Obj(<<>>, <<>>), Arr(<<One, One>>)>>) >>
@@ -84,14 +90,32 @@ ScopeAtoms ==
     SAtom("allOf", <<[required |-> <<"x">>], PX>>),           \* one member requires what another declares
     SAtom("oneOf", <<[apFalse |-> TRUE] @@ PX, PY>>)}
 
+(* DEFAULTS BELOW AN ALTERNATIVE THAT DOES NOT MATCH.  The directed readings (VisitAsRequest / VisitAsResponse with     *)
+(* DefaultsSet) install defaults into the value while validating; an alternative of anyOf / oneOf that does not match   *)
+(* must leave no trace in the value the other alternatives (and the rest of the schema) see -- at any depth.  Shapes:  *)
+(* the first alternative has a default two levels down and fails (late: on "required", after the nested object was      *)
+(* visited in every mode; early: on a property that sorts before the nested object, so that only a mode that goes on    *)
+(* after the first error reaches it; on "minItems" with the default below "items"), the second alternative matches      *)
+(* exactly as long as the nested object is untouched.                                                                   *)
+DefY == [pk |-> <<"y">>, ps |-> <<[default |-> One]>>]
+DefZ == [pk |-> <<"z">>, ps |-> <<[default |-> One]>>]
+DA1 == [pk |-> <<"x">>, ps |-> <<DefY>>, required |-> <<"z">>]
+DB1 == [pk |-> <<"x">>, ps |-> <<[apFalse |-> TRUE]>>]
+DA2 == [pk |-> <<"x", "y">>, ps |-> <<TStr, DefZ>>]
+DB2 == [pk |-> <<"y">>, ps |-> <<[apFalse |-> TRUE]>>]
+DefaultAtoms ==
+   {SAtom("anyOf", <<DA1, DB1>>), SAtom("oneOf", <<DA1, DB1>>), SAtom("anyOf", <<DA2, DB2>>),
+    SAtom("anyOf", <<[items |-> DefY, minItems |-> 2], [items |-> [maxProperties |-> 1]]>>)}
+
 ObjKw == {"type", "nullable", "enum", "apFalse", "apSchema", "required", "minProperties", "maxProperties", "props", "pk", "ps",
           "allOf", "anyOf", "oneOf", "not"}
 (* at the innermost level the scope atoms meet the keywords that look at an object (pairing them with string / number / *)
 (* array keywords adds nothing); a scope atom is recognised by its tag, a schema that holds one by its shape              *)
 IsScope(a) == "scope" \in DOMAIN a
-MemberObj(m) == Has(m, "apFalse") \/ Has(m, "required") \/ (Has(m, "pk") /\ m.ps = <<TInt>>)
+MemberObj(m) == \/ Has(m, "apFalse") \/ Has(m, "required") \/ Has(m, "items")
+                \/ (Has(m, "pk") /\ \E i \in DOMAIN m.ps : Has(m.ps[i], "type") \/ Has(m.ps[i], "pk") \/ Has(m.ps[i], "apFalse"))
 HasScope(s) == \/ (Has(s, "pk") /\ s.ps = <<TInt>>)
-               \/ \E f \in {"allOf", "oneOf"} : Has(s, f) /\ \E i \in DOMAIN s[f] : MemberObj(s[f][i])
+               \/ \E f \in {"allOf", "oneOf", "anyOf"} : Has(s, f) /\ \E i \in DOMAIN s[f] : MemberObj(s[f][i])
 ScopeOK(s, a) == /\ IsScope(a) => DOMAIN s \subseteq ObjKw
                  /\ HasScope(s) => a.f \in ObjKw
 
@@ -103,7 +127,7 @@ CombAtoms ==
     Atom("anyOf", <<[pk |-> <<"x">>, ps |-> <<[default |-> One]>>]>>),
     Atom("not", TStr), Atom("not", [enum |-> <<Num(4)>>]),
     Atom("items", TInt), Atom("apSchema", TStr)}
-   \cup ScopeAtoms
+   \cup ScopeAtoms \cup DefaultAtoms
 
 Atoms ==
    {Atom("type", t) : t \in {"boolean", "integer", "number", "string", "array", "object"}}
